@@ -51,12 +51,17 @@ var (
 	flagChild = flag.Bool("c13child", false, "internal: run as child")
 	flagProbe = flag.String("probe", "", "debug: print the failure-free histories of this program (or 'all')")
 	flagOnly  = flag.String("only", "", "debug: restrict to programs whose name contains this")
+	flagRace  = flag.Int("racepass", 0, "internal (race flavour): probe complete caches N times free-running")
 )
 
 func main() {
 	flag.Parse()
 	if *flagChild {
 		childMain()
+		return
+	}
+	if *flagRace > 0 {
+		racePass(*flagRace)
 		return
 	}
 	r := ev.Start("C13", "fault_enumeration")
@@ -110,6 +115,9 @@ type child struct {
 	count int
 }
 
+// childProcs: GOMAXPROCS of the children (the many-shard phase raises it).
+var childProcs = "2"
+
 func startChild() *child {
 	exe, err := os.Executable()
 	if err != nil {
@@ -117,7 +125,7 @@ func startChild() *child {
 	}
 	cmd := osexec.Command(exe, "-c13child")
 	// 16 children share the cores; a few threads each are enough
-	cmd.Env = append(os.Environ(), "GOMAXPROCS=2")
+	cmd.Env = append(os.Environ(), "GOMAXPROCS="+childProcs)
 	in, err := cmd.StdinPipe()
 	if err != nil {
 		ev.Fatal("pipe: %v", err)
@@ -1700,6 +1708,11 @@ func (c *checker) run() {
 	c.subsetsPhase(progs)
 	c.reusePhase(progs)
 	c.generationPhase(progs)
+	var racePassCov map[string]interface{}
+	if *flagOnly == "" {
+		c.manyPhase()
+		racePassCov = c.racePassCov()
+	}
 
 	// Soft budgets. On an idle 16-core machine quick takes well under a minute and
 	// thorough a few minutes; the budgets leave room for a heavily loaded machine.
@@ -1812,6 +1825,7 @@ func (c *checker) run() {
 			"faults = every (quick: selected) label of the failure-free history of the same (program, executor, subset) x {fail, failpartial (writes), crash}, ordered pairs of them, " +
 			"and (no file fault) the source of shard s failing after r rows for every s, r; " +
 			"plus reuse histories in one session over complete files: run, scan, Result.Discard, Run(consumer, result), scan (cluster: one machine); " +
+			"plus a 64-shard program over its complete cache run k times (reads all shards from files, no upstream call), and a free-running -race pass probing complete caches of 1..256 shards; " +
 			"plus every subset again with files of generation 0 under an input of generation 1 (values +1000), so that rows read from files and rows computed differ; " +
 			"non-trivial = every armed fault actually fired (vfs Fired; the failing source was actually asked), counted as distinct (program, executor, subset, label class, mode)",
 		"programs":                  names,
@@ -1827,6 +1841,7 @@ func (c *checker) run() {
 		"key_to_shard_learned":      c.keyShard,
 		"violation_candidates":      len(c.pending),
 		"process_crashes":           len(c.crashes),
+		"race_pass":                 racePassCov,
 		"process_model":             "every run has its own volume; the next run gets a copy of the files committed when the previous run returned (= the process exits); a crash makes every later file operation of that run fail",
 	})
 }
